@@ -110,24 +110,27 @@ Proof. exact audio_timeline_ok. Qed.
 Print Assumptions C03_timeline.
 
 (** C03_timeline_mpd. The same for the MPD as LiveMPD builds it, under the visible hypothesis that
-    [RepData.sampleDur()] (default_sample_duration of trex/tfhd, else a guess from codec family and
-    timescale) is the frame duration [F] of the representation -- finding mpd-audio-sampledur-zero. *)
-Theorem C03_timeline_mpd : forall r F a dflt codec startNr refT entries,
+    the frame duration the MPD code works with ([mpd_frame_dur]: as the code is, [RepData.sampleDur()] =
+    default_sample_duration of trex/tfhd, else a guess from codec family and timescale; not the measured
+    constant sample duration [cdur]) is the frame duration [F] of the representation -- finding
+    mpd-audio-sampledur-zero. *)
+Theorem C03_timeline_mpd : forall r F a cdur dflt codec startNr refT entries,
   0 < r -> 0 < F -> 0 < a ->
-  rep_sample_dur dflt codec a = F ->
+  mpd_frame_dur cdur dflt codec a = F ->
   0 <= startNr -> entries <> [] -> Forall (fun e => 0 <= fst e) entries -> 0 <= refT ->
   end_ref refT entries * a + F * r < two64 ->
-  exists l, mpd_audio_timeline startNr refT entries r dflt codec a = Ok l
+  exists l, mpd_audio_timeline startNr refT entries r cdur dflt codec a = Ok l
             /\ expand_s 0 l = map (image r F a) (expand_ref refT entries).
 Proof. exact mpd_audio_timeline_ok. Qed.
 Print Assumptions C03_timeline_mpd.
 
 (** C03_timeline_sampledur_refuted: the hypothesis fails for an admitted asset: AAC (1024-sample
-    frames) at 44.1 kHz without a default sample duration in trex/tfhd; [RepData.sampleDur()] is 0 and
-    the MPD request panics (integer divide by zero in calcAudioTimeFromRef). *)
+    frames, measured constant sample duration 1024) at 44.1 kHz without a default sample duration in
+    trex/tfhd; the MPD code works with frame duration 0 and the MPD request panics (integer divide by
+    zero in calcAudioTimeFromRef). *)
 Theorem C03_timeline_sampledur_refuted :
-  rep_sample_dur 0 0 44100 = 0 /\
-  mpd_audio_timeline 0 0 [(60060, 3)] 30000 0 0 44100
+  mpd_frame_dur 1024 0 0 44100 = 0 /\
+  mpd_audio_timeline 0 0 [(60060, 3)] 30000 1024 0 0 44100
   = Panic "calcAudioTimeFromRef: integer divide by zero (audioFrameDur)".
 Proof. exact timeline_sampledur_refuted_witness. Qed.
 Print Assumptions C03_timeline_sampledur_refuted.
